@@ -76,7 +76,12 @@ def gen(S, tier):
     sc = {"kind": kind, "interactive": not c.chance(0.1), "attempts": c.pick([None, None, 1, 2, 3]),
           # how interaction is switched off: on the IO, on its input, or on the IO a section IO was made from
           "off_via": c.pick(["io", "io", "input", "section_before", "section_after"]),
-          "torn": False, "script": []}
+          "torn": False, "script": [],
+          # who reads the typed lines: the simulated input stream, or clikit's own StreamInputStream /
+          # StringInputStream over an in-memory source
+          "input_via": c.weighted([("sim", 6), ("stream", 3), ("string", 1.5)]),
+          # fault: the program's standard output is gone (closed) - the dialogue runs on the error output
+          "stdout_closed": c.chance(0.1)}
     if kind == "choice":
         n = c.randint(1, 5)
         choices = [c.pick(CHOICE_POOL) for _ in range(n)] if c.chance(0.25) else c.sample(CHOICE_POOL, n)
@@ -98,6 +103,8 @@ def gen(S, tier):
     # the same question object asked a second time, on a fresh IO with its own script: what the
     # first dialogue left behind (remaining attempts, last error) must not show in the second
     sc["script2"] = [_answer(w, sc) for _ in range(w.randint(0, 3))] if w.chance(0.35) else None
+    # second ask on a NEW I/O wrapped around the SAME source: it continues where the first stopped
+    sc["shared_source"] = sc["input_via"] == "stream" and sc["script2"] is not None and w.chance(0.6)
     return sc
 
 
@@ -229,11 +236,19 @@ def execute(sc):
     if not _wellformed(sc):
         return res  # only the shrinker can produce these; no verdict
     q = _make_question(sc, res)
-    _dialogue(sc, q, res, log, "")
+    shared = {}
+    _dialogue(sc, q, res, log, "", shared)
     if sc.get("script2") is not None and not res.violations:
         sc2 = dict(sc, script=sc["script2"], torn=False)
+        if sc.get("shared_source") and shared.get("source") is not None and sc["interactive"]:
+            from ..realstream import append_to_source, unread_lines
+            if sc["torn"]:
+                append_to_source(shared["source"], ["\n"])  # the user finishes the torn line first
+            append_to_source(shared["source"], sc["script2"])
+            sc2 = dict(sc2, script=unread_lines(shared["source"]), _source=shared["source"])
+            res.probe("second_io_on_same_source")
         n0, nt = len(res.violations), res.nontrivial
-        _dialogue(sc2, q, res, log, "second_ask:")
+        _dialogue(sc2, q, res, log, "second_ask:", {})
         for v in res.violations[n0:]:
             v["where"] = "second_ask:" + v["where"]
         res.nontrivial = res.nontrivial or nt
@@ -267,7 +282,7 @@ def _make_question(sc, res):
     return q
 
 
-def _dialogue(sc, q, res, log, tag):
+def _dialogue(sc, q, res, log, tag, shared):
     from clikit.api.formatter import Style, StyleSet
     from clikit.api.io import IO, Input, Output
     from clikit.formatter import AnsiFormatter
@@ -277,8 +292,27 @@ def _dialogue(sc, q, res, log, tag):
     kind = sc["kind"]
     has_validator = kind == "choice" or (kind == "question" and sc.get("validator"))
     budget = limit if (limit and has_validator) else 2
-    inp = SimInputStream(log, lines, eof_budget=max(budget, 1) + 2)
+    via = sc.get("input_via", "sim")
+    if via == "stream":
+        from clikit.io.input_stream.stream_input_stream import StreamInputStream
+        from ..realstream import counting, string_source
+        src = sc.get("_source")
+        if src is None:
+            src = string_source(lines)
+        shared["source"] = src
+        inp = counting(StreamInputStream)(src).dsim_init(log, max(budget, 1) + 2)
+        res.probe("real_stream_input")
+    elif via == "string":
+        from clikit.io.input_stream.string_input_stream import StringInputStream
+        from ..realstream import counting
+        inp = counting(StringInputStream)("".join(lines)).dsim_init(log, max(budget, 1) + 2)
+        res.probe("real_string_input")
+    else:
+        inp = SimInputStream(log, lines, eof_budget=max(budget, 1) + 2)
     out = SimOutputStream("out", log, ansi=True)
+    if sc.get("stdout_closed"):
+        out.close()
+        res.fault("stdout_closed")
     err = SimOutputStream("err", log, ansi=True)
     err.max_calls = out.max_calls = 400  # a dialogue of <= 12 reads cannot need more
     # the harness's own style set: error lines are recognised by a style the harness chose
